@@ -836,6 +836,48 @@ static void run_built(uint64_t idx, Ctx& c) {
     if (idx % 9973 == 0) c.sample("{\"tree\":" + jstr(to.label) + "}");
 }
 
+// =========================================================================================== space "nsnest"
+// Chains of API-built elements without any xmlns attribute: every declaration in the output comes from namespace fix-up.  Level choices:
+// element {a, a{ua}, a{ub}, p:a{ua}, p:a{ub}} x attribute {none, p:x{ua}, p:x{ub}} (an element and its attribute never ask for two bindings of
+// p: that is the listed namespace-fixup-prefix-conflict defect); all chains of depth 1..g_steps, so that a prefix (or the default namespace)
+// bound to A, re-bound to B below and needed for A again further down is covered from depth 3.
+static const char* NSE[] = {"a", "a{ua}", "a{ub}", "p:a{ua}", "p:a{ub}"};
+static const char* NSA[] = {"", " @p:x{ua}", " @p:x{ub}"};
+static std::vector<int> NSLEVELS;   // element*3 + attribute
+static void init_nsnest() {
+    for (int e = 0; e < 5; e++) for (int a = 0; a < 3; a++) {
+        if (e >= 3 && a != 0 && (e - 3) != (a - 1)) continue;
+        NSLEVELS.push_back(e * 3 + a);
+    }
+}
+static std::string nsnest_label(uint64_t idx) {
+    std::vector<int> w = word_at(idx + 1, NSLEVELS.size(), g_steps);   // +1: skip the empty word
+    std::string s = "API-built chain, no xmlns attributes:";
+    for (int t : w) s += std::string(" > ") + NSE[NSLEVELS[t] / 3] + NSA[NSLEVELS[t] % 3];
+    return s;
+}
+static void run_nsnest(uint64_t idx, Ctx& c) {
+    std::vector<int> w = word_at(idx + 1, NSLEVELS.size(), g_steps);
+    static const U16 ua = u16("urn:a"), ub = u16("urn:b");
+    DOMDocument* d = g_core->createDocument();
+    struct RelDoc { DOMDocument* d; ~RelDoc() { d->release(); } } rel{d};
+    DOMNode* cur = d;
+    for (int t : w) {
+        int e = NSLEVELS[t] / 3, a = NSLEVELS[t] % 3;
+        DOMElement* el = e == 0 ? d->createElementNS(nullptr, X16("a").p())
+                       : e <= 2 ? d->createElementNS(xs(e == 1 ? ua : ub), X16("a").p())
+                                : d->createElementNS(xs(e == 3 ? ua : ub), X16("p:a").p());
+        if (a) el->setAttributeNS(xs(a == 1 ? ua : ub), X16("p:x").p(), X16("v").p());
+        cur->appendChild(el);
+        cur = el;
+    }
+    cur->appendChild(d->createTextNode(X16("t").p()));
+    c.count("trees");
+    TreeOpts to; to.dropNs = true; to.label = nsnest_label(idx);
+    check_tree(d, to, c);
+    if (idx % 997 == 0) c.sample("{\"tree\":" + jstr(to.label) + "}");
+}
+
 // =========================================================================================== space "data"
 static const char* CTXN[] = {"Text", "CDATA", "Comment", "PI", "Attr", "Text+CDATA+Text"};
 static const int NCTX = 6;
@@ -1040,6 +1082,12 @@ int main(int argc, char** argv) {
         R.fn = run_built;
         R.describe = [](uint64_t i) { return "{\"tree\":" + jstr(steps_label((int)(i % 2), word_at(i / 2, STEPS.size(), g_steps))) + "}"; };
         extra += ",\"alphabet\":" + std::to_string(STEPS.size()) + ",\"depth\":" + std::to_string(g_steps);
+    } else if (space == "nsnest") {
+        init_nsnest();
+        R.total = words_upto(NSLEVELS.size(), g_steps) - 1;
+        R.fn = run_nsnest;
+        R.describe = [](uint64_t i) { return "{\"tree\":" + jstr(nsnest_label(i)) + "}"; };
+        extra += ",\"alphabet\":" + std::to_string(NSLEVELS.size()) + ",\"depth\":" + std::to_string(g_steps);
     } else if (space == "data") {
         R.total = words_upto(SYM.size(), g_k) * NCTX;
         R.fn = run_data;
